@@ -18,7 +18,7 @@ from fractions import Fraction
 
 import numpy as np
 
-from props.c03 import (DTYPES, UNITS, arr_json, array_py, axes_list, axes_py, cls_of, dyadic, err_name, fj, fr, gen_array,
+from props.c03 import (DTYPES, LAYOUTS, UNITS, apply_layout, gen_layout, arr_json, array_py, axes_list, axes_py, cls_of, dyadic, err_name, fj, fr, gen_array,
                        gen_shape, jf, kind_of, ndinfo_py, num_close, view)
 from qv.driver import b2f, f2b
 
@@ -59,6 +59,7 @@ RULE = ("a case is one operation (or one law instance) on one array; distinct no
         "axes pattern, parity pattern / divisibility pattern, reducer or up/down direction) with at least 2 elements")
 TRUSTED = ["np.fft.fftn/ifftn compute the defining DFT sums; np.pad / reshape / sum semantics (modelled as gathers and block sums)"]
 ASSUMPTIONS = [
+    "every array handed to Dataset*.from_array / the array setter is drawn over memory-layout classes as well as dtypes and containers: C-contiguous, Fortran order, fully transposed and permuted views, negative strides (np.flip), step-sliced views of a larger buffer, read-only; the logical values (and therefore the model input) never depend on the layout",
     "calibration reaches the datasets through every route: float lists, Python int tuples and integer ndarrays via Dataset/Dataset2d/3d/4d/4dstem.from_array or via the origin/sampling property setters (35 % integer-typed)",
     "exact stream: integer (or Gaussian-integer) data with |x| <= 9 — and, for 40 % of the bin cases, narrow integer dtypes (uint8/int8/uint16/int16/int32/uint32) with values within 20 % of the dtype extremes, checked against an exact Python-integer block-sum oracle —, dyadic calibration, so every float operation of the code is exact and equality is demanded; mean reducer compared exactly when the block volume is a power of two, else to 1e-12 (float64) / 5e-4 (float32)",
     "float stream: tolerance |impl - model| <= 1e-9 * max(1, max|model|) on float64/complex128 data, 5e-4 on float32/complex64 data; law predicates use 1e-9 (5e-4) relative to max(1, max|x|)",
@@ -153,7 +154,8 @@ def gen_exact_case(rng):
     a = gen_array(rng, shape, dtype)
     o, s, u = gen_calib(rng, ndim)
     cls = "Dataset" if rng.chance(0.6) or ndim == 1 else {2: "Dataset2d", 3: "Dataset3d", 4: rng.choice(["Dataset4d", "Dataset4dstem"])}[ndim]
-    new = {"op": "new", "cls": cls, "array": arr_json(a), "dtype": dtype, "origin": o, "sampling": s, "units": u}
+    layout = gen_layout(rng)      # memory layout of the array handed to from_array (C, Fortran, transposed / permuted / flipped / stepped views, read-only)
+    new = {"op": "new", "cls": cls, "array": dict(arr_json(a), layout=layout), "dtype": dtype, "origin": o, "sampling": s, "units": u}
     if rng.chance(0.35):     # integer-typed calibration through every constructor / setter route (also on the subclasses' own from_array)
         new["route"] = rng.choice(["int_tuple", "int_ndarray", "setter_tuple", "setter_ndarray"])
         new["origin"] = {"l": [rng.randint(-5, 9) for _ in range(ndim)]}
@@ -164,7 +166,7 @@ def gen_exact_case(rng):
     if kind == "bin" and rng.chance(0.4):
         dtype = rng.choice(sorted(NARROW))
         a = gen_extreme_array(rng, shape, dtype)
-        new["array"] = arr_json(a)
+        new["array"] = dict(arr_json(a), layout=layout)
         new["dtype"] = dtype
         new["extreme"] = True
     if kind == "bin":
@@ -256,6 +258,7 @@ def check_exact_case(ctx, drv, case):
     ctx.dist[f"exact:ndim{ndim}"] += 1
     ctx.dist["exact:dtype:" + new["dtype"] + (":extreme" if new.get("extreme") else "")] += 1
     ctx.dist["exact:calibration-route:" + new.get("route", "float")] += 1
+    ctx.dist["exact:layout:" + str(new["array"].get("layout", "C"))] += 1
     parity = "".join("e" if n % 2 == 0 else "o" for n in shape)
     if a0.size >= 2:
         sig_axes = "all" if op.get("axes") is None else ("neg" if any(a < 0 for a in axes_list(op.get("axes"), ndim)) else "sub")
@@ -400,7 +403,8 @@ def gen_float_case(rng):
     neg = rng.chance(0.25)
     return {"stream": "float", "shape": shape, "axes": axes, "outs": outs, "dtype": dtype, "seed": seedv, "mode": mode, "neg_axes": neg,
             "inplace": rng.chance(0.3),
-            "route": "float" if rng.chance(0.65) else rng.choice(["int_tuple", "int_ndarray", "setter_tuple", "setter_ndarray"])}
+            "route": "float" if rng.chance(0.65) else rng.choice(["int_tuple", "int_ndarray", "setter_tuple", "setter_ndarray"]),
+            "layout": gen_layout(rng)}
 
 
 def float_array(case, which=0):
@@ -445,7 +449,7 @@ def check_float_case(ctx, drv, case):
     if route == "float":
         o0 = [Fraction(k, 2) - 1 for k in range(ndim)]
         s0 = [Fraction(k + 1, 4) for k in range(ndim)]
-        mk = lambda arr: Dataset.from_array(arr.copy(), origin=[float(v) for v in o0], sampling=[float(v) for v in s0])  # noqa
+        mk = lambda arr: Dataset.from_array(apply_layout(arr.copy(), case.get("layout")), origin=[float(v) for v in o0], sampling=[float(v) for v in s0])  # noqa
     else:       # integer-typed calibration (Python int tuple / integer ndarray) through subclass constructors or the property setters
         o0 = [Fraction(k - 1) for k in range(ndim)]
         s0 = [Fraction(k + 1) for k in range(ndim)]
@@ -454,12 +458,13 @@ def check_float_case(ctx, drv, case):
 
         def mk(arr):
             if route.startswith("setter"):
-                d_ = kls.from_array(arr.copy())
+                d_ = kls.from_array(apply_layout(arr.copy(), case.get("layout")))
                 d_.origin = cal_value(cal["origin"], route)
                 d_.sampling = cal_value(cal["sampling"], route)
                 return d_
-            return kls.from_array(arr.copy(), origin=cal_value(cal["origin"], route), sampling=cal_value(cal["sampling"], route))
+            return kls.from_array(apply_layout(arr.copy(), case.get("layout")), origin=cal_value(cal["origin"], route), sampling=cal_value(cal["sampling"], route))
     ctx.dist["float:calibration-route:" + route] += 1
+    ctx.dist["float:layout:" + str(case.get("layout", "C"))] += 1
     tol = tol_for(x.dtype)
     sfx = "_f64" if tol == 1e-9 else "_f32"
     ctx.count()
@@ -676,7 +681,7 @@ def gen_history(rng):
         for _ in range(rng.randint(1, 2)):
             steps.append(mutate_step())
         steps.append(resample_step())
-    return {"stream": "hist", "shape": shape, "dtype": dtype, "seed": rng.next() & 0xFFFFFFFF, "steps": steps}
+    return {"stream": "hist", "shape": shape, "dtype": dtype, "seed": rng.next() & 0xFFFFFFFF, "steps": steps, "layout": gen_layout(rng)}
 
 
 def model_exact(drv, marr, mreal, opreq):
@@ -699,7 +704,8 @@ def check_history(ctx, drv, case):
     from quantem.core.datastructures import Dataset
     warnings.simplefilter("ignore")
     x = float_array({"seed": case["seed"], "shape": case["shape"], "dtype": case["dtype"]})
-    ds = Dataset.from_array(x.copy(), origin=[0.0] * x.ndim, sampling=[1.0] * x.ndim)
+    ds = Dataset.from_array(apply_layout(x.copy(), case.get("layout")), origin=[0.0] * x.ndim, sampling=[1.0] * x.ndim)
+    ctx.dist["hist:layout:" + str(case.get("layout", "C"))] += 1
     marr = np.asarray(x, dtype=np.complex128)
     mreal = bool(np.isrealobj(x))
     ctx.dist["hist:histories"] += 1
@@ -721,7 +727,7 @@ def check_history(ctx, drv, case):
             elif st["op"] == "crop":
                 r = ds.crop(tuple(tuple(w) for w in st["widths"]), modify_in_place=bool(st["inplace"]))
             else:
-                ds.array = before * 2 + 1
+                ds.array = apply_layout(before * 2 + 1, LAYOUTS[(i + len(case["steps"])) % len(LAYOUTS)])
                 r = None
         except Exception as e:  # noqa
             ctx.pred_fail("hist-raises", f"step {i} ({st['op']}) of a valid history raised {err_name(e)}: {e}", sub, observed=err_name(e), required="result")
